@@ -337,7 +337,15 @@ def mac_input_rule(prog, chk, pid, an: ExcAnalysis):
                             continue
                         n_sites += 1
                         data = c.args[0]
-                        ok, why = False, "the data argument %s may be empty" % ast.unparse(data)
+                        shown = ast.unparse(data)
+                        if isinstance(data, ast.Name):
+                            # a local bound exactly once in this function stands for its defining expression
+                            defs = [a for a in ast.walk(fi.node) if isinstance(a, ast.Assign) and any(isinstance(t, ast.Name) and t.id == data.id for t in a.targets)]
+                            others = [a for a in ast.walk(fi.node) if isinstance(a, (ast.AugAssign, ast.AnnAssign, ast.For, ast.NamedExpr, ast.withitem)) and any(isinstance(x, ast.Name) and x.id == data.id and isinstance(x.ctx, ast.Store) for x in ast.walk(a.target if hasattr(a, "target") else a))]
+                            if len(defs) == 1 and not others and len(defs[0].targets) == 1 and data.id not in fi.params:
+                                data = defs[0].value
+                                shown = "%s = %s" % (shown, ast.unparse(data))
+                        ok, why = False, "the data argument %s may be empty" % shown
                         if isinstance(data, ast.Subscript) and isinstance(data.value, ast.Name) and isinstance(data.slice, ast.Slice) and data.slice.lower is None and data.slice.upper is not None:
                             try:
                                 k = fold(data.slice.upper)
@@ -357,7 +365,7 @@ def mac_input_rule(prog, chk, pid, an: ExcAnalysis):
                                             got = max(got, _reads_before(blk2[j + 1:idx2], idx2 - j - 1, s2.targets[0].id, fold))
                                 ok = got > -k
                                 why = "only %d byte(s) are certainly read from %s before its MAC is computed over %s: for shorter input the MAC input is empty and the cipher raises a bare Exception" % (got, data.value.id, ast.unparse(data))
-                        (chk.ok if ok else chk.fail)(P("mac-input-nonempty"), fi.qualname, "cmac(%s, ...)" % ast.unparse(data), "%s:%d" % (fi.file, c.lineno),
+                        (chk.ok if ok else chk.fail)(P("mac-input-nonempty"), fi.qualname, "cmac(%s, ...)" % ast.unparse(c.args[0]), "%s:%d" % (fi.file, c.lineno),
                                                      "the MAC input is X[:-K] after more than K bytes of X were read: it cannot be empty" if ok else why)
     if n_sites < 2:
         raise AnalysisError("expected at least the two cmac() call sites of the BF3 reader, found %d" % n_sites)
